@@ -30,6 +30,7 @@ var families = map[string]famDef{
 	"backends":  {"C18", famBackends, Runner{}},
 	"flush":     {"C03", famFlush, exactRunner},
 	"versions":  {"C02", famVersions, exactRunner},
+	"ptr":       {"C02", famPtr, ptrRunner},
 	"faults":    {"C12", famFaults, faultRunner},
 	"conc":      {"C11", famConc, Runner{}},
 	"filecrash": {"C17", famFileCrash, fileCrashRunner},
